@@ -13,7 +13,8 @@ RULE = ('each case generates an importable Parameterized class (2-6 parameters o
         'Boolean/List/Tuple/Dict/ClassSelector, random precedences) with one of three constructor shapes ((**params); '
         'positional+keyword parameters with signature defaults equal to or different from the Parameter default plus '
         '**params; all parameters named, no **params) and 3 states with literal values (escapes, negatives, inf, empty and '
-        'nested containers, 1-tuples, None, explicit names) and nested Parameterized values (depth <= 2); '
+        'nested containers, 1-tuples, None, explicit names; container defaults empty or not, values that are copies / subsets / '
+        'supersets / one-element changes of the default) and nested Parameterized values (depth <= 2); '
         'eval(pprint()) and exec/eval(script_repr()) must give an object of the same class with structurally equal '
         'parameter values. non-trivial = custom signature or nested object or container/escape/inf value; distinct by '
         '(signature shape, parameter types, value feature classes)')
@@ -28,7 +29,7 @@ ASSUMPTIONS = [
     'containers hold literals only (the statement says: literals, containers of literals or nested Parameterized '
     'objects); Parameterized values sit directly in Parameter/ClassSelector parameters, nested to depth 2',
 ]
-REQUIRED = {'pprint_evals': 1000, 'script_repr_evals': 1000}
+REQUIRED = {'pprint_evals': 1000, 'script_repr_evals': 1000, 'values_related_to_default': 100}
 
 MODNAME = 'pvgen_c20'
 _st = {}
@@ -145,6 +146,33 @@ def gen_value(rng, ptype, inners, spec=None):
     raise ValueError(ptype)
 
 
+def near(rng, ptype, default, inners, spec):
+    """A valid value closely related to the default: an equal copy, a sub-/superset, one element changed."""
+    import copy as _copy
+    d = _copy.deepcopy(default)
+    c = rng.randrange(4)
+    if isinstance(d, dict):
+        if c == 0 and d:
+            d.pop(rng.choice(list(d)))
+        elif c == 1:
+            d['extra'] = lit(rng, 1)
+        elif c == 2 and d:
+            d[rng.choice(list(d))] = lit(rng, 1)
+        return d
+    if isinstance(d, list):
+        if c == 0 and d:
+            d.pop(rng.randrange(len(d)))
+        elif c == 1:
+            d.append(lit(rng, 1))
+        elif c == 2 and d:
+            d[rng.randrange(len(d))] = lit(rng, 1)
+        return d
+    if isinstance(d, tuple) and d and ptype in ('Tuple', 'Parameter'):
+        i = rng.randrange(len(d))
+        return d[:i] + (lit(rng, 1),) + d[i + 1:] if c else d
+    return gen_value(rng, ptype, inners, spec)
+
+
 def equal(a, b, path='', diffs=None):
     """Structural equality of parameter values; Parameterized values compared by class and parameter values."""
     param = _st['param']
@@ -209,11 +237,13 @@ def run_case(idx, rng, P, rep):
             kw['class_'] = param.Parameterized
             kw['default'] = None
         elif pt == 'List':
-            kw['default'] = []
+            kw['default'] = [] if rng.random() < 0.5 else [lit(rng, 1) for _ in range(rng.randint(1, 3))]
         elif pt == 'Dict':
-            kw['default'] = {}
+            kw['default'] = {} if rng.random() < 0.5 else {k: lit(rng, 1) for k in rng.sample(['k', 'a b', 1, 2.5], rng.randint(1, 3))}
         elif pt == 'Parameter':
-            kw['default'] = None
+            kw['default'] = None if rng.random() < 0.6 else lit(rng)
+        if kw.get('default'):
+            rep.count('nonempty_container_defaults')
         sp['default'] = getattr(param, pt)(**kw).default
         ns[pname] = getattr(param, pt)(**kw)
         specs.append(sp)
@@ -260,7 +290,11 @@ def run_case(idx, rng, P, rep):
         for s in specs:
             must = shape != 'varkw' and s['name'] in (pos if shape != 'varkw' else [])
             if must or rng.random() < 0.6:
-                kw[s['name']] = gen_value(rng, s['ptype'], inners, s)
+                if s['default'] and rng.random() < 0.5:
+                    kw[s['name']] = near(rng, s['ptype'], s['default'], inners, s)
+                    rep.count('values_related_to_default')
+                else:
+                    kw[s['name']] = gen_value(rng, s['ptype'], inners, s)
         if shape != 'named' and rng.random() < 0.3:
             kw['name'] = rng.choice(['explicit', cname, 'Outer', cname + '1x', cname + '12_copy', cname + '3 (2)', 'n0'])
         try:
